@@ -57,7 +57,7 @@ def ipp_encode(req):
         if vt in (33, 35):
             return struct.pack(">i", int(v))
         if vt == 51:
-            return struct.pack(">ii", int(v), int(v) + 10)
+            return struct.pack(">ii", int(v), min(int(v) + 10, 2147483647))
         if vt == 34:
             return b"\x01" if v == "true" else b"\x00"
         return v.encode()
@@ -151,7 +151,62 @@ def ipp_part(ck, tier, lab):
                     ck.disagree("ipp/event-document", "%s: event document has %d bytes" % (desc, len(ev.get("ipp.data") or "")), rp)
     ck.cov["ipp_requests"] = len(scs)
     ck.sample(r.scn[0])
+    ipp_decoded(ck, lab, r.scn)
     return len(scs)
+
+
+def ipp_decoded(ck, lab, scn):
+    """what the service's own decoder makes of every generated request (hook ipp.VerifDecode): operation, request id, groups,
+    attributes with all their values, document - compared with what was encoded; and the encoder applied to the decoded
+    message gives the attribute part of the request back"""
+    reqs, rows = {}, []
+    for k, s in enumerate(scn):
+        body, doc = ipp_encode(s["req"])
+        reqs[k] = (s["req"], body, doc)
+        rows.append({"id": k, "hex": body.hex()})
+    inp, out = os.path.join(lib.scratch(), "c17-ippdec-in.ndjson"), os.path.join(lib.scratch(), "c17-ippdec-out.ndjson")
+    lib.write_ndjson(inp, rows)
+    rc, so, se = lib.run_lab(lab, ["c17ippdec", "-in", inp, "-out", out], timeout=900)
+    if rc != 0:
+        raise lib.Infra("lab c17ippdec rc=%d %s" % (rc, se[-800:]))
+    n = 0
+    for res in lib.read_ndjson(out):
+        req, body, doc = reqs[res["id"]]
+        n += 1
+        desc = "op %#x id %d groups %s" % (req["op"], req["id"], [(g["tag"], [(a["name"], "%#x" % a["vt"], a["vals"]) for a in g["attrs"]]) for g in req["groups"]])
+        rp = {"ipp": req, "decoded": res}
+        if res.get("panic") or res.get("error"):
+            ck.disagree("ipp-decode/fails", "%s: the decoder %s" % (desc[:600], res.get("panic") or res.get("error")), rp)
+            continue
+        m = res["msg"]
+        want_op = req["op"] if req["op"] < 32768 else req["op"] - 65536
+        if (m["major"], m["minor"], m["op"], m["id"]) != (req["major"], req["minor"], want_op, req["id"]):
+            ck.disagree("ipp-decode/header", "%s: decoded header %s" % (desc[:300], (m["major"], m["minor"], m["op"], m["id"])), rp)
+            continue
+        want = []
+        for g in req["groups"]:
+            attrs = []
+            for a in g["attrs"]:
+                vals = ["%s..%s" % (int(v), min(int(v) + 10, 2147483647)) for v in a["vals"]] if a["vt"] == 51 else [str(v) for v in a["vals"]]
+                attrs.append({"vt": a["vt"], "name": a["name"], "vals": vals})
+            want.append({"tag": g["tag"], "attrs": attrs})
+        got = [g for g in (m["groups"] or []) if g["tag"] != 3]
+        if got != want:
+            gi = next((i for i, (a, b) in enumerate(zip(got, want)) if a != b), min(len(got), len(want)))
+            ga = got[gi]["attrs"] if gi < len(got) else None
+            wa = want[gi]["attrs"] if gi < len(want) else None
+            ai = next((i for i, (a, b) in enumerate(zip(ga or [], wa or [])) if a != b), 0)
+            ck.disagree("ipp-decode/attributes", "%s: group %d attribute %d decoded as %s, encoded %s" % (
+                desc[:300], gi, ai, json.dumps((ga or [None])[ai] if ga and ai < len(ga) else None)[:200],
+                json.dumps(wa[ai] if wa and ai < len(wa) else None)[:200]), rp)
+            continue
+        if bytes.fromhex(res.get("data_hex") or "") != doc:
+            ck.disagree("ipp-decode/document", "%s: %d document bytes decoded, %d encoded" % (desc[:300], len(res.get("data_hex") or "") // 2, len(doc)), rp)
+            continue
+        re_ = bytes.fromhex(res.get("reencoded") or "")
+        if re_ != body[:len(body) - len(doc)]:
+            ck.notes.append("MODEL-DRIFT ipp: encode(decode(request)) differs from the request's attribute part for %s" % desc[:200])
+    ck.cov["ipp_requests_decoded_and_compared"] = n
 
 
 def run(tier, lab):
